@@ -264,7 +264,7 @@ pub const BREGS: [&str; 8] = ["al", "ah", "bl", "bh", "cl", "ch", "dl", "dh"];
 pub const WREGS: [&str; 8] = ["ax", "bx", "cx", "dx", "sp", "bp", "si", "di"];
 pub const SREGS: [&str; 4] = ["es", "ds", "ss", "cs"];
 
-pub const LABELS: &str = "vb:D:5;vw:D:300;big:D:65535;zero:D:0;start:C:0;lab:C:7;far:C:100";
+pub const LABELS: &str = "vb:D:5;vw:D:300;big:D:65535;zero:D:0;edge:D:15;start:C:0;lab:C:7;far:C:100";
 pub const FNS: &str = "fun:3;other:44";
 
 impl Gen {
@@ -327,14 +327,14 @@ impl Gen {
         match self.rng.below(4) {
             0 | 1 => self.rng.pick(&BREGS).to_string(),
             2 => format!("byte {}", self.mem()),
-            _ => format!("byte {}", self.rng.pick(&["vb", "vw", "big", "zero"])),
+            _ => format!("byte {}", self.rng.pick(&["vb", "vw", "big", "zero", "edge"])),
         }
     }
     pub fn dst16(&mut self) -> String {
         match self.rng.below(4) {
             0 | 1 => self.rng.pick(&WREGS).to_string(),
             2 => format!("word {}", self.mem()),
-            _ => format!("word {}", self.rng.pick(&["vb", "vw", "big", "zero"])),
+            _ => format!("word {}", self.rng.pick(&["vb", "vw", "big", "zero", "edge"])),
         }
     }
     pub fn imm8s(&mut self) -> String {
@@ -433,8 +433,8 @@ impl Gen {
                 1 => format!("mov {},{}", self.rng.pick(&WREGS), self.rng.pick(&SREGS)),
                 2 => format!("mov word {},{}", self.mem(), self.rng.pick(&SREGS)),
                 3 => format!("mov {}, word {}", self.rng.pick(&SREGS), self.mem()),
-                4 => format!("mov {}, word vw", self.rng.pick(&SREGS)),
-                5 => format!("mov word vw,{}", self.rng.pick(&SREGS)),
+                4 => format!("mov {}, word {}", self.rng.pick(&SREGS), self.rng.pick(&["vw", "vw", "edge", "big"])),
+                5 => format!("mov word {},{}", self.rng.pick(&["vw", "vw", "edge", "big"]), self.rng.pick(&SREGS)),
                 _ => format!("mov {}", self.pair(true)),
             },
             "xfer" => match self.rng.below(10) {
@@ -445,9 +445,9 @@ impl Gen {
                 4 => format!("xchg {} ,{}", self.rng.pick(&WREGS), self.rng.pick(&WREGS)),
                 5 => format!("xchg byte {} ,{}", self.mem(), self.rng.pick(&BREGS)),
                 6 => format!("xchg word {} ,{}", self.mem(), self.rng.pick(&WREGS)),
-                7 => format!("xchg word vw ,{}", self.rng.pick(&WREGS)),
+                7 => format!("xchg word {} ,{}", self.rng.pick(&["vw", "vw", "edge", "big"]), self.rng.pick(&WREGS)),
                 8 => format!("lea {} , word {}", self.rng.pick(&WREGS), self.mem()),
-                _ => format!("lea {} , word {}", self.rng.pick(&WREGS), self.rng.pick(&["vb", "vw", "big", "zero"])),
+                _ => format!("lea {} , word {}", self.rng.pick(&WREGS), self.rng.pick(&["vb", "vw", "big", "zero", "edge"])),
             },
             "stack" => match self.rng.below(10) {
                 0 => "pushf".into(),
@@ -458,8 +458,8 @@ impl Gen {
                 5 => format!("pop {}", self.rng.pick(&["es", "ds", "ss"])),
                 6 => format!("push word {}", self.mem()),
                 7 => format!("pop word {}", self.mem()),
-                8 => format!("push word {}", self.rng.pick(&["vb", "vw", "big"])),
-                _ => format!("pop word {}", self.rng.pick(&["vb", "vw", "big"])),
+                8 => format!("push word {}", self.rng.pick(&["vb", "vw", "big", "edge"])),
+                _ => format!("pop word {}", self.rng.pick(&["vb", "vw", "big", "edge"])),
             },
             "jump" => {
                 let j = *self.rng.pick(&[
